@@ -47,26 +47,26 @@ type dfWitness struct {
 	Fail       ssa.Instruction // the failing return (or call whose DF is inherited)
 	Callee     *ssa.Function   // when inherited from a callee
 	calleeSlot int
-	inner      *dfWitness // for message subscribers: the specialised witness
+	inner      *dfWitness   // for message subscribers: the specialised witness
 	calleeWits []*dfWitness // witnesses of the (possibly specialised) callee for calleeSlot
 	Why        string
 }
 
 type wtf struct {
-	p       *Prog
-	fns     []*ssa.Function
-	carrier map[*ssa.Function]map[int]bool
-	W       map[*ssa.Function]map[int]bool
-	WB      map[*ssa.Function]map[int]bool
-	NSF     map[*ssa.Function]bool
-	NSS     map[*ssa.Function]map[string]bool // names of non-storage error origins (sentinel names, or "*" for fresh/unknown)
-	subs    map[string][]*ssa.Function       // message kind -> subscribed ExecuteMessage implementations
-	storageOnly map[string]string             // tabled: functions whose non-storage returns are unreachable in a consistent state
-	DF      map[*ssa.Function]map[int][]*dfWitness
-	impls   map[string][]*ssa.Function // "pkg.(Iface).Method" -> module implementations
-	opaque  func(fn *ssa.Function) bool
-	pubMemo map[string]*fnSummary
-	specMemo map[string]*fnSummary
+	p           *Prog
+	fns         []*ssa.Function
+	carrier     map[*ssa.Function]map[int]bool
+	W           map[*ssa.Function]map[int]bool
+	WB          map[*ssa.Function]map[int]bool
+	NSF         map[*ssa.Function]bool
+	NSS         map[*ssa.Function]map[string]bool // names of non-storage error origins (sentinel names, or "*" for fresh/unknown)
+	subs        map[string][]*ssa.Function        // message kind -> subscribed ExecuteMessage implementations
+	storageOnly map[string]string                 // tabled: functions whose non-storage returns are unreachable in a consistent state
+	DF          map[*ssa.Function]map[int][]*dfWitness
+	impls       map[string][]*ssa.Function // "pkg.(Iface).Method" -> module implementations
+	opaque      func(fn *ssa.Function) bool
+	pubMemo     map[string]*fnSummary
+	specMemo    map[string]*fnSummary
 
 	origMemo map[ssa.Value][]origin
 }
